@@ -55,6 +55,10 @@ def shapes(tier, seed):
         out.append((carrier, 'root', (), (), False, False, 'body'))
         for extra in ('date-http', 'date-http-signed', 'date-iso-signed'):
             out.append((carrier, 'root', (), (), False, False, extra))
+        # server clock anywhere within the window around a request made five minutes before / after UTC midnight (the scope date
+        # is that of the request, the server's calendar date may be the neighbouring one)
+        out.append((carrier, 'root', (), (), False, False, 'clock-before-midnight'))
+        out.append((carrier, 'root', (), (), False, False, 'clock-after-midnight'))
         if not q:
             out.append((carrier, 'path2', (LIT, PUP), (), False, False, None))
             out.append((carrier, 'path2', (PLO, LIT), (('p', LIT, LIT),), True, True, 'hdr'))
@@ -175,8 +179,13 @@ def build(ctx, shape):
         headers.append(('date', dv))
         if extra != 'date-http':
             signed.append('date')
+    ts, base_secs = TS, T0
+    if extra == 'clock-before-midnight':
+        ts, base_secs = '20150830T235500Z', T0 + (23 * 3600 + 55 * 60) - (12 * 3600 + 36 * 60)
+    elif extra == 'clock-after-midnight':
+        ts, base_secs = '20150830T000500Z', T0 + 5 * 60 - (12 * 3600 + 36 * 60)
     return dict(carrier=carrier, segs=segs, wire_path=wire_path, pairs=pairs, wire_q=wire_q, headers=headers, signed=signed,
-                body=body, tok=tok, s3=s3)
+                body=body, tok=tok, s3=s3, ts=ts, base_secs=base_secs, clock=bool(extra and extra.startswith('clock-')))
 
 
 def assemble(m, ctx, L, key):
@@ -194,19 +203,19 @@ def assemble(m, ctx, L, key):
         cpath = conc_bytes('/')
     cred = conc_bytes(AKID + '/' + SCOPE)
     if carrier == 'header':
-        headers.append(('x-amz-date', conc_bytes(TS)))
+        headers.append(('x-amz-date', conc_bytes(L['ts'])))
         signed.append('x-amz-date')
         if L['tok'] is not None:
             headers.append(('x-amz-security-token', list(L['tok'])))
             signed.append('x-amz-security-token')
         signed.sort()
         cq = R.ref_canon_query_from_pairs(ctx, pairs)
-        sig, creq, sts = ref_sign(m, key, ctx, 'GET', cpath, cq, headers, signed, L['body'], conc_bytes(TS), conc_bytes(SCOPE))
+        sig, creq, sts = ref_sign(m, key, ctx, 'GET', cpath, cq, headers, signed, L['body'], conc_bytes(L['ts']), conc_bytes(SCOPE))
         L['ref_pieces'] = (cq, list(headers), list(signed))
         headers.append(('authorization', auth_header(cred, signed, sig)))
     else:
         signed.sort()
-        auth_pairs = [('X-Amz-Algorithm', conc_bytes('AWS4-HMAC-SHA256')), ('X-Amz-Credential', cred), ('X-Amz-Date', conc_bytes(TS)),
+        auth_pairs = [('X-Amz-Algorithm', conc_bytes('AWS4-HMAC-SHA256')), ('X-Amz-Credential', cred), ('X-Amz-Date', conc_bytes(L['ts'])),
                       ('X-Amz-SignedHeaders', conc_bytes(';'.join(signed)))]
         if L['tok'] is not None:
             auth_pairs.append(('X-Amz-Security-Token', list(L['tok'])))
@@ -216,7 +225,7 @@ def assemble(m, ctx, L, key):
                 wire_q.append(Int('u8', 0x26))
             wire_q += conc_bytes(n) + [Int('u8', 0x3D)] + R.pct_encode(ctx, v)
         cq = R.ref_canon_query_from_pairs(ctx, pairs)
-        sig, creq, sts = ref_sign(m, key, ctx, 'GET', cpath, cq, headers, signed, L['body'], conc_bytes(TS), conc_bytes(SCOPE))
+        sig, creq, sts = ref_sign(m, key, ctx, 'GET', cpath, cq, headers, signed, L['body'], conc_bytes(L['ts']), conc_bytes(SCOPE))
         L['ref_pieces'] = (cq, list(headers), list(signed))
         wire_q += conc_bytes('&X-Amz-Signature=') + sig
     rq = Req('GET', L['wire_path'], wire_q if wire_q else None, headers, L['body'], 'bytes')
@@ -250,7 +259,13 @@ def run_shape(prog, shape, tier, seed, res):
         rq, signed = assemble(m, ctx, L, key)
         prov = provider_ok(key)
         before = len(oracle_of(m).calls)
-        r, polls = run(m, rq, 'us-east-1', 'service', prov, instant(T0), None, options(L['s3'], False))
+        srv = instant(L['base_secs'])
+        if L['clock']:
+            delta = ctx.fresh_bv('clock_delta', 32)
+            ctx.assume(z3.And(delta >= -899, delta <= 899))
+            L['delta'] = delta
+            srv = C.DateTime(z3.simplify(srv.secs + z3.SignExt(32, delta)), 0, C.shift_civil(srv.civil, delta), 0)
+        r, polls = run(m, rq, 'us-east-1', 'service', prov, srv, None, options(L['s3'], False))
         L['code_calls'] = oracle_of(m).calls[before:]
         # yardstick for the known finding F6 only: the canonical path the F6 variant of the reference gives (literal '+' read as a space)
         try:
@@ -290,7 +305,8 @@ def run_shape(prog, shape, tier, seed, res):
         j = rq.to_json(model)
         inp = {'carrier': L['carrier'], 'request': strip_signature(j, L['carrier']), 'signed': signed, 's3': L['s3'],
                'token': model_bytes(model, L['tok']).decode() if L['tok'] is not None else None,
-               'mirse_outcome': [o[1], render_err(o[2])]}
+               'mirse_outcome': [o[1], render_err(o[2])], 'ts': L['ts'],
+               'server_secs': L['base_secs'] + (model.eval(L['delta'], model_completion=True).as_signed_long() if L.get('delta') is not None else 0)}
         res.findings.append(Finding('spec-conformant signed request refused (%s)' % o[1], inp, None, kid, repr(shape)))
 
     engine.explore(prog, body, on_path, stats=res.stats)
@@ -341,7 +357,7 @@ def sign_concrete(inp, key=bytes(32)):
     body = bytes.fromhex(j['body_hex'])
     signed = inp['signed']
     cp, cq = py_canon(path, query)
-    sig, creq, sts = py_sign(key, 'GET', cp, cq, headers, signed, body, TS, SCOPE, is_key=True)
+    sig, creq, sts = py_sign(key, 'GET', cp, cq, headers, signed, body, inp.get('ts', TS), SCOPE, is_key=True)
     if inp['carrier'] == 'header':
         authz = 'AWS4-HMAC-SHA256 Credential=%s/%s, SignedHeaders=%s, Signature=%s' % (AKID, SCOPE, ';'.join(signed), sig)
         j['headers'].append(['authorization', authz.encode().hex()])
@@ -361,7 +377,7 @@ def replay_finding(rp, f):
     if 'request' not in inp:
         return False, None
     j, creq, sts = sign_concrete(inp)
-    nat = native_validate(rp, j, 'us-east-1', 'service', T0, provider={'result': {'signing_key_hex': '00' * 32}},
+    nat = native_validate(rp, j, 'us-east-1', 'service', inp.get('server_secs', T0), provider={'result': {'signing_key_hex': '00' * 32}},
                           opts={'s3': inp['s3'], 'url_encode_form': False})
     res = nat.get('result', {})
     ok_ = 'ok' in res
